@@ -289,6 +289,11 @@ func (p *Proxy) handleHTTP(r responder.Responder, proxyReq *http.Request) error 
 	slog.Debug("Handling HTTP request", "host", proxyReq.Host, "remote_addr", proxyReq.RemoteAddr)
 	metrics.Global.Requests.HTTPProxyRequests.Increment()
 
+	// What the client declared hop-by-hop ends here, before anything is read from or added to the
+	// request: stripped only at send time, a Connection header naming If-None-Match / If-Modified-Since
+	// would also remove the validators this proxy adds for a revalidation.
+	removeHopByHopHeaders(proxyReq.Header)
+
 	clientHd := headers.ParseHeaderDirective(proxyReq.Header)
 	clientHd.StripRegularConditionals(proxyReq.Header)
 
